@@ -124,6 +124,7 @@ from ..ast.fpyast import (
 from ..ast.visitor import DefaultTransformVisitor
 from ..utils import Gensym, Id
 from .iter_elim import (
+    body_may_write,
     Ctx,
     Plan,
     SubstNames,
@@ -179,7 +180,7 @@ class _ZipElimInstance(DefaultTransformVisitor):
 
     def _visit_for(self, stmt: ForStmt, ctx: Ctx):
         plan = _plan(stmt.target, stmt.iterable)
-        if plan is None:
+        if plan is None or body_may_write(stmt.body):
             return super()._visit_for(stmt, ctx)
         # Recursively rewrite the body first, in case it contains
         # nested zip patterns.
